@@ -324,6 +324,7 @@ class KafkaClient(object):
         self.topics_to_brokers.clear()
         self.topic_partitions.clear()
         self.topic_errors.clear()
+        self.partition_meta.clear()
         self._group_to_coordinator.clear()
 
     def has_metadata_for_topic(self, topic):
